@@ -637,7 +637,7 @@ macro_rules! float_harnesses {
 //@ encodes: BuiltinRuntime::invoke (dispatch), impls::float_arithmetic, float_arithmetic_result!
 //@ sym: a, b: u32 bit patterns (all 2^64 pairs incl. NaN, infinities, subnormals, signed zero), op in {Add,Sub,Mul}
 //@ oracle: the Rust operator on f32 (CBMC's bit-precise IEEE-754 theory); bits equal unless the result is NaN (then: is NaN)
-//@ bounds: all operand bit patterns; Div is in the thorough tier (c05_h5_div_float32); unwind 3
+//@ bounds: all operand bit patterns for Add, Sub, Mul; Div on all bit patterns does not finish (60 min) and is not decided; unwind 3
 //@ stubs: as c05_h3_arith_int8
 //@ replay: playback
 //@ id: c05_h5_cmp_float32
@@ -657,7 +657,7 @@ float_harnesses!(c05_h5_arith_float32, c05_h5_cmp_float32, f32, u32, Float32, Fl
 //@ encodes: BuiltinRuntime::invoke (dispatch), impls::float_arithmetic, float_arithmetic_result!
 //@ sym: a, b: u64 bit patterns (all 2^128 pairs), op in {Add,Sub}
 //@ oracle: the Rust operator on f64; bits equal unless the result is NaN
-//@ bounds: all operand bit patterns; Mul and Div are in the thorough tier; unwind 3
+//@ bounds: all operand bit patterns for Add, Sub; Mul and Div on all binary64 bit patterns do not finish (60 min) and are not decided; unwind 3
 //@ stubs: as c05_h3_arith_int8
 //@ replay: playback
 //@ id: c05_h5_cmp_float64
@@ -673,17 +673,17 @@ float_harnesses!(c05_h5_arith_float64, c05_h5_cmp_float64, f64, u64, Float64, Fl
 
 //@ id: c05_h5_arith_all_float32
 //@ property: C05
-//@ tier: thorough
+//@ tier: off
 //@ encodes: BuiltinRuntime::invoke (dispatch), impls::float_arithmetic, float_arithmetic_result!
 //@ sym: a, b: u32 bit patterns (all pairs), op in {Add,Sub,Mul,Div}
 //@ oracle: the Rust operator on f32; bits equal unless NaN
-//@ bounds: all operand bit patterns; unwind 3
+//@ bounds: all operand bit patterns (measured: does not finish in 60 min with the divider; switched off); unwind 3
 //@ stubs: as c05_h3_arith_int8
 //@ replay: playback
 //@ timeout: 2400
 //@ id: c05_h5_cmp_all_float32
 //@ property: C05
-//@ tier: thorough
+//@ tier: off
 //@ encodes: as c05_h5_cmp_float32 (re-run in the thorough module)
 //@ sym: as c05_h5_cmp_float32
 //@ oracle: as c05_h5_cmp_float32
@@ -694,17 +694,17 @@ float_harnesses!(c05_h5_arith_all_float32, c05_h5_cmp_all_float32, f32, u32, Flo
 
 //@ id: c05_h5_arith_all_float64
 //@ property: C05
-//@ tier: thorough
+//@ tier: off
 //@ encodes: BuiltinRuntime::invoke (dispatch), impls::float_arithmetic, float_arithmetic_result!
 //@ sym: a, b: u64 bit patterns (all pairs), op in {Add,Sub,Mul,Div}
 //@ oracle: the Rust operator on f64; bits equal unless NaN
-//@ bounds: all operand bit patterns; unwind 3
+//@ bounds: all operand bit patterns (measured: does not finish in 60 min with the 53-bit multiplier and divider; switched off); unwind 3
 //@ stubs: as c05_h3_arith_int8
 //@ replay: playback
 //@ timeout: 2600
 //@ id: c05_h5_cmp_all_float64
 //@ property: C05
-//@ tier: thorough
+//@ tier: off
 //@ encodes: as c05_h5_cmp_float64 (re-run in the thorough module)
 //@ sym: as c05_h5_cmp_float64
 //@ oracle: as c05_h5_cmp_float64
